@@ -529,8 +529,13 @@ func (r *Message) decode(decoder Decoder) (int, error) {
 	for {
 		n, err = decoder.Decode(r.bufferUnmarshal, &r.msg)
 		if errors.Is(err, message.ErrOptionsTooSmall) {
-			// increase buffer size and try again
-			r.msg.Options = make(message.Options, 0, len(r.msg.Options)*2)
+			// increase buffer size and try again; a message whose options were replaced by an
+			// empty slice (e.g. SetMessage(message.Message{})) has capacity 0 and must still grow
+			newCap := cap(r.msg.Options) * 2
+			if newCap == 0 {
+				newCap = 16
+			}
+			r.msg.Options = make(message.Options, 0, newCap)
 			continue
 		}
 		return n, err
